@@ -172,26 +172,32 @@ Value& MemberCONCATExpression::value(Context& ctx) const
       switch (rv_type.major())
       {
       case Type::INTEGER:
-        if (a0_type == Type::NUMERIC)
+        if (a0_type == Type::NUMERIC && rv_type.level() == 1)
         {
-          rv->push_back(Value(Value::integerOf(*a0.numeric())));
+          if (a0.isNull())
+            rv->push_back(Value(Value::type_integer));
+          else
+            rv->push_back(Value(Value::integerOf(*a0.numeric())));
           return val;
         }
         else if (a0.type() == Type::NO_TYPE)
         {
-          rv->push_back(Value(Value::type_integer));
+          rv->push_back(Value(rv_type.levelDown()));
           return val;
         }
         break;
       case Type::NUMERIC:
-        if (a0_type == Type::INTEGER)
+        if (a0_type == Type::INTEGER && rv_type.level() == 1)
         {
-          rv->push_back(Value(Numeric(*a0.integer())));
+          if (a0.isNull())
+            rv->push_back(Value(Value::type_numeric));
+          else
+            rv->push_back(Value(Numeric(*a0.integer())));
           return val;
         }
         else if (a0.type() == Type::NO_TYPE)
         {
-          rv->push_back(Value(Value::type_numeric));
+          rv->push_back(Value(rv_type.levelDown()));
           return val;
         }
         break;
